@@ -63,6 +63,14 @@ package anthropic
 //@ ghost var evDelta bool
 //@ ghost var evStopped bool
 //@ ghost var evBroken bool
+// content accounting: textOut / argsOut = concatenation of every text_delta / input_json_delta payload written so far;
+// argsIn = concatenation of every tool-argument fragment taken from the backend's chunks so far
+//@ ghost var textOut string
+//@ ghost var argsOut string
+//@ ghost var argsIn string
+//@ spec func evDeltaMap(data interface{}) map[string]interface{} = asType(asType(data, "map[string]interface{}")["delta"], "map[string]interface{}")
+//@ spec func evTextPayload(event string, data interface{}) string = ite(event == "content_block_delta" && asString(evDeltaMap(data)["type"]) == "text_delta", asString(evDeltaMap(data)["text"]), "")
+//@ spec func evArgsPayload(event string, data interface{}) string = ite(event == "content_block_delta" && asString(evDeltaMap(data)["type"]) == "input_json_delta", asString(evDeltaMap(data)["partial_json"]), "")
 //@ spec func evIdx(data interface{}) int = asInt(asType(data, "map[string]interface{}")["index"])
 //@ spec func evAllowed(event string, data interface{}) bool = evBroken || (event == "message_start" && !evStarted) || (event == "content_block_start" && evStarted && !evDelta && evOpen == -1 && evIdx(data) == evNext) || (event == "content_block_delta" && evStarted && !evDelta && evOpen >= 0 && evIdx(data) == evOpen) || (event == "content_block_stop" && evStarted && !evDelta && evOpen >= 0 && evIdx(data) == evOpen) || (event == "message_delta" && evStarted && !evDelta && evOpen == -1) || (event == "message_stop" && evDelta && !evStopped)
 
@@ -71,7 +79,9 @@ package anthropic
 //@   property C13
 //@   trusted
 //@   requires evAllowed(event, data)
-//@   modifies gvar evStarted, gvar evOpen, gvar evNext, gvar evDelta, gvar evStopped, gvar evBroken
+//@   modifies gvar evStarted, gvar evOpen, gvar evNext, gvar evDelta, gvar evStopped, gvar evBroken, gvar textOut, gvar argsOut
+//@   records textOut = ite(res == nil, concat(old(textOut), evTextPayload(event, data)), old(textOut))
+//@   records argsOut = ite(res == nil, concat(old(argsOut), evArgsPayload(event, data)), old(argsOut))
 //@   records evStarted = old(evStarted) || (res == nil && event == "message_start")
 //@   records evOpen = ite(res == nil && event == "content_block_start", evIdx(data), ite(res == nil && event == "content_block_stop", -1, old(evOpen)))
 //@   records evNext = ite(res == nil && event == "content_block_start", old(evNext) + 1, old(evNext))
@@ -96,8 +106,9 @@ package anthropic
 //@   property C13
 //@   safety
 //@   requires t != nil && rc != nil && streamInv(state)
-//@   modifies gvar evStarted, gvar evOpen, gvar evNext, gvar evDelta, gvar evStopped, gvar evBroken, state.messageStartSent
+//@   modifies gvar evStarted, gvar evOpen, gvar evNext, gvar evDelta, gvar evStopped, gvar evBroken, gvar textOut, gvar argsOut, state.messageStartSent
 //@   ensures old(evBroken) ==> evBroken
+//@   ensures res == nil && !evBroken ==> textOut == old(textOut) && argsOut == old(argsOut)
 //@   ensures streamInv(state)
 //@   ensures res == nil ==> evBroken || evStarted
 //@   ensures res != nil ==> evBroken
@@ -106,8 +117,9 @@ package anthropic
 //@   property C13
 //@   safety
 //@   requires t != nil && rc != nil && streamInv(state)
-//@   modifies gvar evStarted, gvar evOpen, gvar evNext, gvar evDelta, gvar evStopped, gvar evBroken
+//@   modifies gvar evStarted, gvar evOpen, gvar evNext, gvar evDelta, gvar evStopped, gvar evBroken, gvar textOut, gvar argsOut
 //@   ensures old(evBroken) ==> evBroken
+//@   ensures res == nil && !evBroken ==> textOut == old(textOut) && argsOut == old(argsOut)
 //@   ensures res != nil ==> evBroken
 //@   ensures res == nil && !evBroken ==> evStarted == old(evStarted) && evNext == old(evNext) && !evDelta && !evStopped
 //@   ensures res == nil && !evBroken && old(state.currentBlock) != nil && old(state.currentBlock.Type) == blockType ==> evOpen == -1
@@ -117,13 +129,17 @@ package anthropic
 //@   property C13
 //@   safety
 //@   requires t != nil && rc != nil && streamInv(state)
-//@   modifies gvar evStarted, gvar evOpen, gvar evNext, gvar evDelta, gvar evStopped, gvar evBroken, state.messageStartSent, state.currentBlock, state.currentIndex, state.contentBlocks, ContentBlock.Text
+//@   modifies gvar evStarted, gvar evOpen, gvar evNext, gvar evDelta, gvar evStopped, gvar evBroken, gvar textOut, gvar argsOut, state.messageStartSent, state.currentBlock, state.currentIndex, state.contentBlocks, ContentBlock.Text
 //@   ensures old(evBroken) ==> evBroken
+//@   ensures res == nil && !evBroken ==> textOut == concat(old(textOut), content) && argsOut == old(argsOut)
+//@   ensures res != nil ==> evBroken
 //@   ensures streamInv(state)
 
 //@ func extractToolCallData
 //@   property C13 C20
 //@   safety
+//@   modifies gvar argsIn
+//@   records argsIn = ite(res1, concat(old(argsIn), res0.arguments), old(argsIn))
 //@   ensures res1 ==> res0 != nil && fresh(res0)
 
 //@ func (t *Translator) initializeToolBlock
@@ -131,8 +147,10 @@ package anthropic
 //@   replay anthropic_stream_two_tools
 //@   safety
 //@   requires t != nil && rc != nil && streamInv(state) && (evBroken || evStarted)
-//@   modifies gvar evStarted, gvar evOpen, gvar evNext, gvar evDelta, gvar evStopped, gvar evBroken, state.currentBlock, state.currentIndex, state.contentBlocks, state.toolIndexToBlock[all]
+//@   modifies gvar evStarted, gvar evOpen, gvar evNext, gvar evDelta, gvar evStopped, gvar evBroken, gvar textOut, gvar argsOut, state.currentBlock, state.currentIndex, state.contentBlocks, state.toolIndexToBlock[all]
 //@   ensures old(evBroken) ==> evBroken
+//@   ensures res == nil && !evBroken ==> textOut == old(textOut) && argsOut == old(argsOut)
+//@   ensures res != nil ==> evBroken
 //@   ensures streamInv(state)
 //@   ensures res == nil ==> state.currentBlock != nil && state.currentBlock.Type == "tool_use"
 //@   ensures forall k int :: old(has(state.toolCallBuffers, k)) ==> has(state.toolCallBuffers, k) && state.toolCallBuffers[k] == old(state.toolCallBuffers[k])
@@ -143,16 +161,71 @@ package anthropic
 //@   requires t != nil && rc != nil && streamInv(state) && (evBroken || evStarted)
 //@   requires has(state.toolCallBuffers, toolIndex) && state.toolCallBuffers[toolIndex] != nil
 //@   requires evBroken || state.currentBlock != nil
-//@   modifies gvar evStarted, gvar evOpen, gvar evNext, gvar evDelta, gvar evStopped, gvar evBroken
+//@   modifies gvar evStarted, gvar evOpen, gvar evNext, gvar evDelta, gvar evStopped, gvar evBroken, gvar textOut, gvar argsOut
 //@   ensures old(evBroken) ==> evBroken
+//@   ensures res == nil && !evBroken ==> textOut == old(textOut) && argsOut == concat(old(argsOut), args)
+//@   ensures res != nil ==> evBroken
 //@   ensures streamInv(state)
 
 //@ func (t *Translator) handleToolCallsDelta
 //@   property C13
 //@   safety
-//@   requires t != nil && rc != nil && streamInv(state) && len(toolCalls) < 1000000
-//@   modifies gvar evStarted, gvar evOpen, gvar evNext, gvar evDelta, gvar evStopped, gvar evBroken, state.messageStartSent, state.currentBlock, state.currentIndex, state.contentBlocks, state.toolIndexToBlock[all], state.toolCallBuffers[all]
+//@   requires t != nil && rc != nil && streamInv(state)
+//@   modifies gvar evStarted, gvar evOpen, gvar evNext, gvar evDelta, gvar evStopped, gvar evBroken, gvar textOut, gvar argsOut, gvar argsIn, state.messageStartSent, state.currentBlock, state.currentIndex, state.contentBlocks, state.toolIndexToBlock[all], state.toolCallBuffers[all]
 //@   ensures old(evBroken) ==> evBroken
+//@   ensures res == nil && !evBroken ==> textOut == old(textOut) && (old(argsOut) == old(argsIn) ==> argsOut == argsIn)
+//@   ensures res != nil ==> evBroken
 //@   loop 1 invariant streamInv(state) && (evBroken || evStarted) && (old(evBroken) ==> evBroken)
+//@   loop 1 invariant evBroken || (textOut == old(textOut) && (old(argsOut) == old(argsIn) ==> argsOut == argsIn))
 //@   at call sendToolArgumentsDelta 1 assume evBroken || (state.currentBlock != nil && state.currentBlock.Type == "tool_use")
 //@   ensures streamInv(state)
+
+//@ func (t *Translator) logStreamingResponse
+//@   property C13
+//@   trusted
+
+//@ func (t *Translator) finalizeStream
+//@   property C13
+//@   safety
+//@   requires t != nil && rc != nil && t.inspector != nil && t.logger != nil && streamInv(state) && (evBroken || evStarted)
+//@   modifies gvar evStarted, gvar evOpen, gvar evNext, gvar evDelta, gvar evStopped, gvar evBroken, gvar textOut, gvar argsOut, state.contentBlocks
+//@   loop 1 invariant streamInv2(state) && (old(evBroken) ==> evBroken)
+//@   ensures res == nil && !evBroken ==> evStarted && evDelta && evStopped && evOpen == -1
+//@   ensures res == nil && !evBroken ==> textOut == old(textOut) && argsOut == old(argsOut)
+//@   ensures old(evBroken) ==> evBroken
+//@   ensures res != nil ==> evBroken
+
+// after the last block has been closed: nothing is open any more
+//@ spec func streamInv2(state *StreamingState) bool = state != nil && state.toolCallBuffers != nil && state.toolIndexToBlock != nil && (evBroken || (evStarted && !evDelta && !evStopped && evOpen == -1)) && (forall k int :: has(state.toolCallBuffers, k) ==> state.toolCallBuffers[k] != nil) && (forall k int :: has(state.toolIndexToBlock, k) ==> 0 <= state.toolIndexToBlock[k] && state.toolIndexToBlock[k] < len(state.contentBlocks))
+
+//@ func (t *Translator) processStreamLine
+//@   property C13 C20
+//@   safety
+//@   requires t != nil && rc != nil && t.logger != nil && streamInv(state)
+//@   modifies gvar evStarted, gvar evOpen, gvar evNext, gvar evDelta, gvar evStopped, gvar evBroken, gvar textOut, gvar argsOut, gvar argsIn, state.messageStartSent, state.currentBlock, state.currentIndex, state.contentBlocks, state.toolIndexToBlock[all], state.toolCallBuffers[all], state.model, state.lastFinishReason, state.inputTokens, state.outputTokens, ContentBlock.Text
+//@   ensures old(evBroken) ==> evBroken
+//@   ensures !evBroken ==> (old(argsOut) == old(argsIn) ==> argsOut == argsIn)
+//@   ensures streamInv(state)
+
+//@ func (t *Translator) transformStreamingSync
+//@   property C13 C20
+//@   safety
+//@   requires t != nil && rc != nil && t.logger != nil && streamInv(state)
+//@   modifies gvar evStarted, gvar evOpen, gvar evNext, gvar evDelta, gvar evStopped, gvar evBroken, gvar textOut, gvar argsOut, gvar argsIn, state.messageStartSent, state.currentBlock, state.currentIndex, state.contentBlocks, state.toolIndexToBlock[all], state.toolCallBuffers[all], state.model, state.lastFinishReason, state.inputTokens, state.outputTokens, ContentBlock.Text
+//@   loop 1 invariant streamInv(state) && (old(evBroken) ==> evBroken) && (evBroken || (old(argsOut) == old(argsIn) ==> argsOut == argsIn))
+//@   ensures old(evBroken) ==> evBroken
+//@   ensures !evBroken ==> (old(argsOut) == old(argsIn) ==> argsOut == argsIn)
+//@   ensures streamInv(state)
+
+// The whole stream: starting from a fresh response (nothing sent yet), every event written obeyed the grammar (the
+// requires of writeEvent at every call site), and if the transport never failed the client has received a complete
+// message: message_start ... every block closed ... message_delta, message_stop.
+//@ func (t *Translator) TransformStreamingResponse
+//@   property C13 C20
+//@   safety
+//@   requires t != nil && t.inspector != nil && t.logger != nil && w != nil
+//@   requires !evStarted && evOpen == -1 && evNext == 0 && !evDelta && !evStopped && !evBroken
+//@   requires argsOut == "" && argsIn == ""
+//@   modifies *
+//@   ensures res == nil && !evBroken ==> evStarted && evDelta && evStopped && evOpen == -1
+//@   ensures res == nil && !evBroken ==> argsOut == argsIn
